@@ -146,7 +146,7 @@ func (s *Stats) Sample(render func() string) {
 	defer s.mu.Unlock()
 	s.sampleSeen++
 	n := s.sampleSeen
-	keep := n <= 2 || (len(s.Samples) < 6 && (n == 50 || n == 500 || n == 3000 || n == 20000))
+	keep := n <= 2 || (len(s.Samples) < 8 && (n == 50 || n == 500 || n == 3000 || n == 20000 || n == 90000 || n == 100000 || n == 400000))
 	if keep {
 		r := render()
 		if len(r) > 600 {
